@@ -21,8 +21,18 @@ fn curve_of(k: u64) -> Curve {
         Curve::Ed
     }
 }
+/// model keys 1..4 are real keys; 10 + 2 t (t = 0..7) is the degenerate Ed25519 key whose public key is the t-th
+/// small-order point
 fn key_no(k: u64, seed: u64) -> u64 {
+    if k >= 10 {
+        return DEGENERATE_BASE + (k - 10) / 2 * 10;
+    }
     5000 + (seed % 1000) * 10 + k
+}
+/// a degenerate key "signs" with a constant: R = its own point ("forgedSame") or the neutral element ("forgedId"), s = 0
+fn sig_key_no(s: &Value, seed: u64) -> u64 {
+    let k = s["k"].as_u64().unwrap();
+    key_no(k, seed) + if k >= 10 && s["over"].as_str() == Some("forgedId") { 1 } else { 0 }
 }
 fn model_key(k: u64, seed: u64) -> Key {
     Key::new(curve_of(k), key_no(k, seed))
@@ -55,7 +65,7 @@ pub fn spec_of(c: &Value, seed: u64) -> TxSpec {
             blob_pad: 0,
             instr_salt: 0,
             blob_salt: 0,
-            sigs: c["sigs"][i].as_array().unwrap().iter().map(|s| { let k = s["k"].as_u64().unwrap(); SigSpec { curve: curve_of(k), key: key_no(k, seed), over: over_of(s) } }).collect(),
+            sigs: c["sigs"][i].as_array().unwrap().iter().map(|s| { let k = s["k"].as_u64().unwrap(); SigSpec { curve: curve_of(k), key: sig_key_no(s, seed), over: over_of(s) } }).collect(),
             parent: if i == 0 { 0 } else { 1 },
             reverse_children: false,
             child_yields: vec![],
@@ -77,7 +87,7 @@ pub fn spec_of(c: &Value, seed: u64) -> TxSpec {
         tip: 0,
         notary: (curve_of(notary), key_no(notary, seed)),
         notary_is_signatory: c["signatory"].as_bool().unwrap(),
-        notary_sig: SigSpec { curve: curve_of(nk), key: key_no(nk, seed), over: nover },
+        notary_sig: SigSpec { curve: curve_of(nk), key: sig_key_no(&c["nsig"], seed), over: nover },
     }
 }
 
